@@ -11,12 +11,17 @@
 (***************************************************************************)
 EXTENDS Integers, Sequences, FiniteSets, TLC, Json
 
-CONSTANTS Msgs, Classes, StrClasses, MaxPtr, EmitOneIn
+CONSTANTS Msgs, Classes, StrClasses, MaxPtr,
+          MaxNum,   \* numeric leaves of different classes in one message: "hole" = the h-th numeric leaf is zero while the others
+                    \* are of the vector's class; "solo" = only the h-th numeric leaf is of that class (h \in 0..MaxNum)
+          EmitOneIn
 VARIABLES vec, chan, got
 vars == <<vec, chan, got>>
 
-Vectors == {[msg |-> m, cls |-> c, present |-> p, k |-> k, strs |-> s] :
+Vectors == {[msg |-> m, cls |-> c, present |-> p, k |-> k, strs |-> s, hm |-> "", h |-> 0] :
               m \in Msgs, c \in Classes, p \in {"all", "none", "only", "except"}, k \in 0..MaxPtr, s \in StrClasses}
+           \cup {[msg |-> m, cls |-> c, present |-> "all", k |-> 0, strs |-> "short", hm |-> hm, h |-> h] :
+              m \in Msgs, c \in Classes \cap {"one", "max"}, hm \in {"hole", "solo"}, h \in 0..MaxNum}
 Canon(v) == (v.present \in {"all", "none"} => v.k = 0) /\ (v.cls = "zero" => (v.present = "all" /\ v.strs = "short"))
 
 Init == vec \in {v \in Vectors : Canon(v)} /\ chan = <<>> /\ got = <<>>
